@@ -1887,10 +1887,11 @@ class FileIterator(FileStorageFormatter):
             # small enough, otherwise we'll fail.
             file.seek(self._file_size - 8)
             l_ = u64(file.read(8))
-            if not (l_ + 12 <= self._file_size and
+            if not (TRANS_HDR_LEN <= l_ and
+                    l_ + 12 <= self._file_size and
                     self._read_num(self._file_size - l_) == l_):
                 if self._file_size < (1 << 20):
-                    return self._scan_foreward(start)
+                    return self._scan_forward(pos1, start)
                 raise ValueError("Can't find last transaction in large file")
             pos2 = self._file_size - l_ - 8
             file.seek(pos2)
@@ -1917,7 +1918,13 @@ class FileIterator(FileStorageFormatter):
                      self._file_name, pos, start)
         while 1:
             # Read the transaction record
-            h = self._read_txn_header(pos)
+            try:
+                h = self._read_txn_header(pos)
+            except CorruptedDataError:
+                # End of file, or an incomplete transaction at the end:
+                # nothing at or after `start`.  __next__ deals with it.
+                self._pos = pos
+                return
             if h.tid >= start:
                 self._pos = pos
                 return
@@ -1961,7 +1968,11 @@ class FileIterator(FileStorageFormatter):
                 # If buf is empty, we've reached EOF.
                 if not err.buf:
                     break
-                raise
+                # A partial header: the file ends inside a transaction
+                # that is being (or never was completely) written.
+                logger.warning("%s truncated, possibly due to"
+                               " damaged records at %s", self._file.name, pos)
+                break
 
             if h.tid <= self._ltid:
                 logger.warning("%s time-stamp reduction at %s",
